@@ -237,13 +237,14 @@ func TestVerifC20Memory(t *testing.T) {
 		v, c := c20CheckCapacity(capacity, shape)
 		nontrivial := capacity%(int64(4)<<30) != 0
 		st.Case(unit, nontrivial, fmt.Sprint(capacity), "shape:"+shape)
-		if st.WantSample() && nontrivial {
-			r := k8s.OomAdjToMemReq(500, 0)
-			c.Adj, c.Req, c.Back = 500, *r, k8s.MemReqToOomAdj(*r)
-			st.Sample(c)
-		}
 		if v != nil {
 			st.Report(t, unit, v, c)
+		}
+		if st.WantSample() && nontrivial {
+			if r := k8s.OomAdjToMemReq(500, 0); r != nil {
+				c.Adj, c.Req, c.Back = 500, *r, k8s.MemReqToOomAdj(*r)
+				st.Sample(c)
+			}
 		}
 	})
 }
